@@ -16,7 +16,7 @@ CONFIG = {
     "level": "proof",
     "n": {"quick": 330, "thorough": 4000},
     "shard": 120,
-    "extra_proof_files": ["Names", "ProofsCopy", "ProofsExport", "ProofsImport", "ProofsIncr", "ProofsLink"],
+    "extra_proof_files": ["Names", "ProofsCopy", "ProofsExport", "ProofsImport", "ProofsIncr", "ProofsSeq", "ProofsLink"],
     "harness_timeout": {"quick": 600, "thorough": 3000},
     "rule": "designed cases (empty / cache-only / one file / pending tombstone / rewrite after delete / compaction, for restore, import and RPC copy; every cut "
             "class of a three-member archive: header, data, padding, member boundary, each marker block; since thresholds at every member mtime +-1ns; export "
@@ -47,6 +47,9 @@ def classify(case):
     obs = case.get("obs") or {}
     if d.get("mode") == "incr" and not obs.get("backup_err") and not obs.get("restore_err") \
             and not obs.get("dst_equals_src") and (obs.get("dst_files_removed_on_source") or 0) > 0:
+        return "c18-incremental-restore-keeps-removed-files"
+    if d.get("mode") == "copyseq" and (obs.get("acknowledged_but_different") or 0) > 0 \
+            and (obs.get("dst_files_removed_on_source") or 0) > 0:
         return "c18-incremental-restore-keeps-removed-files"
     if d.get("mode") == "busy" and not obs.get("backup_err") and not obs.get("restore_err") and not obs.get("dst_equals_src"):
         return "c18-backup-busy-skips-cache"
